@@ -24,6 +24,7 @@ import (
 	"encoding/json"
 	"errors"
 	"fmt"
+	neturl "net/url"
 	"strings"
 
 	"github.com/Comcast/rulio/core"
@@ -158,8 +159,10 @@ func (c *CroltSimple) Rem(ctx *core.Context, id string) (bool, error) {
 	}
 
 	url := strings.Trim(c.CroltURL, "/") + "/rem"
-	url += "?account=" + ctx.Location().Name
-	url += "&id=" + id
+	// Escaped: a location named "B&id=r" is not the job "r" of the
+	// location "B".
+	url += "?account=" + neturl.QueryEscape(ctx.Location().Name)
+	url += "&id=" + neturl.QueryEscape(id)
 	ctx.Log(core.INFO, "Cron.Rem", "url", url)
 
 	req := core.NewHTTPRequest(ctx, "GET", url, "")
